@@ -425,7 +425,15 @@ func init() {
 						if now := s.All(); fmt.Sprint(now) != fmt.Sprint(append([]int{}, m...)) {
 							fails = append(fails, fmt.Sprintf("slice-contents[%s]: contents %v, reference %v (on %v: %s)", cls, now, m, before, id))
 						}
-						key = sliceState(s)
+						// slices handed out earlier are part of the state: what happens to them is observed later
+						// (with the operation that handed them out: whether they share storage depends on it)
+						var live []string
+						for _, r := range sliceRetained {
+							if len(r.got) > 0 && len(live) < 2 {
+								live = append(live, r.from)
+							}
+						}
+						key = fmt.Sprintf("%s handed-out=%v", sliceState(s), live)
 						grew = len(m) > maxLen
 						return fails
 					})
